@@ -253,13 +253,35 @@ class ObjRun:
                             path=o.path)
                 # re-synchronise: forget this object (local oracle; one divergence is reported once)
                 o.twin_sig = sg
+            if o.path and o.root == "J" and not getattr(self, "fault_fired", False) and not getattr(o, "value_reported", False):
+                # C01: an object reached from the joint keeps returning the joint log-density at the complete assignment,
+                # also after other views of the same joint were created, evaluated or sampled
+                nv = len([v_ for v_ in ctx.violations if v_["property"] == "C01"])
+                self.c01_value(o, "kw")
+                if len([v_ for v_ in ctx.violations if v_["property"] == "C01"]) > nv:
+                    o.value_reported = True
 
     # ------------------------------------------------------------------ C01 value oracle
     def c01_value(self, o: Obj, how):
         from cuqi.density import EvaluatedDensity
         ctx, vals = self.ctx, self.vals
-        if o.root != "J" or any(st.get("special") or st.get("alt") for st in o.path):
+        if o.root != "J" or any(st.get("special") for st in o.path):
             return
+        expected = self.total
+        if any(st.get("alt") for st in o.path):
+            # a view fixed (partly) at the ALTERNATIVE values: its reference is the pristine joint at that complete assignment
+            if not hasattr(o, "alt_total"):
+                asg = dict(vals)
+                for st in o.path:
+                    if st.get("alt"):
+                        asg.update({n_: self.vals_alt[n_] for n_ in st["names"]})
+                try:
+                    o.alt_total = float(np.ravel(self.twinG0["J"].logd(**asg))[0])
+                except Exception:
+                    o.alt_total = None
+            if o.alt_total is None or not np.isfinite(o.alt_total):
+                return
+            expected = o.alt_total
         obj = o.obj
         try:
             pn = list(obj.get_parameter_names()) if not isinstance(obj, EvaluatedDensity) else []
@@ -289,8 +311,8 @@ class ObjRun:
             ctx.count("c01_values_skipped_fault_in_op")     # a callable misbehaved inside this very evaluation
             return
         ctx.count("c01_values")
-        if not close(v, self.total, 1e-9):
-            ctx.violate("C01", "wrong_value", sg, got=v, expected=self.total, path=o.path, fixed=sorted(o.fixed))
+        if not close(v, expected, 1e-9):
+            ctx.violate("C01", "wrong_value", sg, got=v, expected=expected, path=o.path, fixed=sorted(o.fixed))
 
     def c01_invalid(self, o: Obj):
         """missing / unknown / doubly specified variables must be refused."""
@@ -905,7 +927,7 @@ TAGS = {"mrf2d": [], "mapped_x": ["x.prec"], "heat_pde": ["y.cov"], "userdef_x":
 
 
 def gen_case(r, tier):
-    g = r.choice([x for x in graphs.GRAPHS if x != "reg_s"] + ["xz_s", "cov_sd", "cov_sdt", "gmrf_d_s", "mapped_x"])      # callables with two arguments: twice as likely
+    g = r.choice([x for x in graphs.GRAPHS if x != "reg_s"] + ["xz_s", "cov_sd", "cov_sdt", "gmrf_d_s", "mapped_x", "lognormal_cov_s"])      # callables with two arguments: twice as likely
     n = r.randint(2, 5)
     rec = {"graph": g, "n": n, "m": n + r.randint(0, 2), "zseed": r.randrange(1, 10 ** 6),
            "bc": r.choice(["zero", "zero", "neumann"])}
